@@ -11,13 +11,13 @@ def d19CfgAux : Cfg :=
 
 /-- the consumer starts both workers and the call; the feeder sends both chunks (queue bound 1: worker 0 takes the first
 in between); both workers deliver and stand at `retire`; the consumer drains the results, leaves the loop and stops and
-joins the replace thread; only then the two workers post their ids and exit, unreplaced; the first stop order of
+joins the replace thread; only then the two workers post their ids, run `end()` and exit (two steps each), unreplaced; the first stop order of
 `__exit__` fills the work queue, the second `put` finds it full; D19 repaired: every listed worker has an exit code, so the
 loop of stop orders is left and the caller is done (the last `.c`; before the repair nobody could move here). -/
 def d19Sched : List Tid :=
   [.c, .c, .c, .c, .c, .c, .c, .c, .w 0, .w 0, .w 1, .w 1, .f, .f, .f, .f, .f, .w 0, .f, .f, .f, .f, .f, .f, .f, .w 1,
    .w 0, .w 0, .w 0, .w 1, .w 1, .w 1,
-   .c, .c, .c, .c, .c, .c, .c, .c, .c, .c, .c, .c, .c, .c, .c, .c, .c, .c, .r, .c, .w 0, .w 1, .c, .c, .c]
+   .c, .c, .c, .c, .c, .c, .c, .c, .c, .c, .c, .c, .c, .c, .c, .c, .c, .c, .r, .c, .w 0, .w 0, .w 1, .w 1, .c, .c, .c]
 
 theorem d19_run_some : (run (init d19CfgAux) d19Sched).isSome = true := by decide +kernel
 
